@@ -545,7 +545,7 @@ func main() {
 		"833fe62409237b9d62ec77587520911e9a759cec1d19755b7da901b96dca3d42",
 		"0305334e381af78f141cb666f6199f57bc3495335a256a95bd2a55bf546663f6",
 	}
-	n := r.Pick(240, 3000)
+	n := r.Pick(240, 1500)
 	var cases []Case
 	for i := 0; i < n; i++ {
 		seed := mon.Bytes(rng, 32)
